@@ -58,6 +58,22 @@ pub fn tuple_destructure(tpl_dstrct: &TupleDestructure, p: &Interpreter) -> MRes
   };
   let symbols = p.symbols();
   let mut symbols_brrw = symbols.borrow_mut();
+  // Check every name and the arity first, so that a failing destructure defines nothing.
+  for (i, var) in tpl_dstrct.vars.iter().enumerate() {
+    let id = var.hash();
+    if symbols_brrw.contains(id) {
+      return Err(MechError::new(
+        VariableAlreadyDefinedError { id },
+        None
+      ).with_compiler_loc().with_tokens(var.tokens()));
+    }
+    if tpl.borrow().get(i).is_none() {
+      return Err(MechError::new(
+        TupleDestructureTooManyVarsError{ value: source.kind() },
+        None
+      ).with_compiler_loc().with_tokens(var.tokens()));
+    }
+  }
   for (i, var) in tpl_dstrct.vars.iter().enumerate() {
     let id = var.hash();
     if symbols_brrw.contains(id) {
